@@ -295,7 +295,7 @@ def enum2_exprs():
 
 def worker(ctx, widx, stage, stats):
     if stage == "random":
-        per = ctx.pick(14, 140)
+        per = ctx.pick(90, 900)
         f = core.hypothesis_search(None, ctx, case_strategy(ctx), judge, per, ctx.seed * 1000 + widx, stats,
                                    time_budget=ctx.pick(100, 1500))
         return [f] if f else []
